@@ -154,9 +154,16 @@ def analyse(events: list[tuple], position_classes_known: bool = True) -> dict:
     label_pc: dict[int, tuple] = {}
     emit_ev: dict[int, tuple] = {}
     order: list[int] = []
+    # the traversal that gives labels their addresses is the first one over the node list (it ends where a node is visited again);
+    # nodes that only take part in later traversals (`=` symbols) are not judged - how many traversals follow, and what they are
+    # called inside a816, does not matter
+    first_done = False
     for ev in events:
-        if ev[0] == "pc" and ev[1] == "label":
-            label_pc.setdefault(ev[2], ev)
+        if ev[0] == "pc" and ev[1] != "emit":
+            if ev[2] in label_pc:
+                first_done = True
+            if not first_done:
+                label_pc[ev[2]] = ev
         elif ev[0] == "emit" and ev[1] == "emit":
             if ev[2] not in emit_ev:
                 emit_ev[ev[2]] = ev
